@@ -163,8 +163,15 @@ func c20R4(c *Ctx) {
 				}
 				base := x.Call.Args[0]
 				if !rootIsTarget(base) {
+					// slices.Clip(hc.F) / slices.Clone(hc.F) as the base: look at its operand
+					if bc, ok := strip(base).(*ssa.Call); ok && len(bc.Call.Args) == 1 {
+						if f := calleeFunc(&bc.Call); f != nil && f.Pkg() != nil && f.Pkg().Path() == "slices" && rootIsTarget(bc.Call.Args[0]) {
+							goto counted
+						}
+					}
 					return
 				}
+			counted:
 				nAppend++
 				cons := fmt.Sprintf("%s#append%d", gname, nAppend)
 				clipped := false
